@@ -364,6 +364,13 @@ func (r *runner) reopen() *violation {
 }
 
 func (r *runner) step(e string) *violation {
+	// the removal of an old data file runs in a goroutine started at roll-over; the
+	// harness owns that timing: every event starts after it has finished
+	defer func() {
+		if r.db != nil {
+			r.db.VerifWaitFiles()
+		}
+	}()
 	r.curEv = e
 	r.trace = append(r.trace, e)
 	if e == "idle" {
